@@ -103,6 +103,7 @@ def close(obs, exp, rtol=1e-9):
 
 
 _WORLDS = {}
+_WORLDS_ALL = {}
 
 
 def _init_pool(worlds_by_id):
@@ -151,7 +152,7 @@ def replay_case(args):
     trace = None
     if want_obs:
         path = os.path.join(C.scratch(), "rep_%d.ndjson" % os.getpid())
-        O.record_run(m, path, wid=wid)
+        O.record_run(m, path, wid=wid, world=w, init=[[float(fr(x)) for x in rows] for rows in st0])
         trace = open(path).read().splitlines()
         os.remove(path)
     links = [WD.find_link(m, w, l) for l in w["links"]]
